@@ -76,6 +76,100 @@ def check_no_path_rewrite(run: Run) -> None:
     run.control("R19.8", "a `.expanduser()` call is recognised", isinstance(ctl, ast.Call) and ctl.func.attr in PATH_REWRITERS)  # type: ignore[attr-defined]
 
 
+def _inline_helper(fi: FuncInfo, call: ast.Call) -> ast.AST | None:
+    """the value of `self.h(args)` / `h(args)` when h (same module) is straight-line: simple assignments then `return <expr>`"""
+    name = call.func.attr if isinstance(call.func, ast.Attribute) and isinstance(call.func.value, ast.Name) and call.func.value.id in ("self", "cls") else call.func.id if isinstance(call.func, ast.Name) else None
+    if name is None or call.keywords:
+        return None
+    cands = [f for f in fi.module.functions.values() if f.name == name and (f.cls == fi.cls or f.cls is None)]
+    if len(cands) != 1:
+        return None
+    h = cands[0]
+    body = [st for st in h.node.body if not (isinstance(st, ast.Expr) and isinstance(st.value, ast.Constant))]  # type: ignore[attr-defined]
+    if not body or not isinstance(body[-1], ast.Return) or body[-1].value is None:
+        return None
+    params = [a.arg for a in h.node.args.args if a.arg not in ("self", "cls")]  # type: ignore[attr-defined]
+    if len(params) != len(call.args):
+        return None
+    env: dict[str, ast.AST] = dict(zip(params, call.args))
+    for st in body[:-1]:
+        if not (isinstance(st, ast.Assign) and len(st.targets) == 1 and isinstance(st.targets[0], ast.Name)):
+            return None
+        env[st.targets[0].id] = _subst(st.value, env)
+    return _subst(body[-1].value, env)
+
+
+def _subst(e: ast.AST, env: dict[str, ast.AST]) -> ast.AST:
+    import copy
+
+    class S(ast.NodeTransformer):
+        def visit_Name(self, n: ast.Name):  # noqa: N802
+            return copy.deepcopy(env[n.id]) if isinstance(n.ctx, ast.Load) and n.id in env else n
+
+    return S().visit(copy.deepcopy(e))
+
+
+def _reject_normal_form(fi: FuncInfo, loop: ast.For) -> frozenset:
+    """set of paths through one pass of the walk loop that end in a failure return; a path is the set of its atomic conditions
+    (text, truth). Locals bound in the pass are inlined, `Path(x).parts` is read as `x.parts`, one-expression helpers are inlined,
+    `A and B` true / `A or B` false are split, `not` flips. Statements of other kinds take part verbatim."""
+    out: set[frozenset] = set()
+
+    def norm_text(e: ast.AST, env: dict[str, ast.AST]) -> str:
+        e = _subst(e, env)
+
+        class P(ast.NodeTransformer):
+            def visit_Call(self, n: ast.Call):  # noqa: N802
+                self.generic_visit(n)
+                if isinstance(n.func, ast.Name) and n.func.id == "Path" and len(n.args) == 1 and isinstance(n.args[0], ast.Name) and not n.keywords:
+                    return n.args[0]
+                return n
+
+        return ast.unparse(P().visit(e))
+
+    def atoms(t: ast.AST, val: bool, env: dict[str, ast.AST]) -> list[tuple[str, bool]]:
+        if isinstance(t, ast.UnaryOp) and isinstance(t.op, ast.Not):
+            return atoms(t.operand, not val, env)
+        if isinstance(t, ast.BoolOp) and ((isinstance(t.op, ast.And) and val) or (isinstance(t.op, ast.Or) and not val)):
+            return [a for v in t.values for a in atoms(v, val, env)]
+        if isinstance(t, ast.Call):
+            inl = _inline_helper(fi, t)
+            if inl is not None:
+                return atoms(inl, val, env)
+        return [(norm_text(t, env), val)]
+
+    def run_block(stmts: list[ast.stmt], facts: tuple, env: dict[str, ast.AST]) -> list[tuple[tuple, dict]]:
+        """returns the (facts, env) pairs that fall out of the end of the block"""
+        live = [(facts, env)]
+        for st in stmts:
+            nxt: list[tuple[tuple, dict]] = []
+            for fc, ev in live:
+                if isinstance(st, ast.Assign) and len(st.targets) == 1 and isinstance(st.targets[0], ast.Name):
+                    ev2 = dict(ev)
+                    ev2[st.targets[0].id] = _subst(st.value, {k: v for k, v in ev.items() if k != st.targets[0].id}) if st.targets[0].id not in {x.id for x in ast.walk(st.value) if isinstance(x, ast.Name)} else st.value
+                    if st.targets[0].id in {x.id for x in ast.walk(st.value) if isinstance(x, ast.Name)}:
+                        ev2.pop(st.targets[0].id, None)  # self-referential update (current = current / part): keep the name
+                    nxt.append((fc, ev2))
+                elif isinstance(st, ast.If):
+                    for val, body in ((True, st.body), (False, st.orelse)):
+                        nxt += run_block(body, fc + tuple(atoms(st.test, val, ev)), ev)
+                elif isinstance(st, ast.Return):
+                    if _false_tuple(st.value):
+                        out.add(frozenset(fc))
+                elif isinstance(st, (ast.Continue, ast.Break, ast.Raise)):
+                    if isinstance(st, ast.Raise):
+                        out.add(frozenset(fc))
+                elif isinstance(st, (ast.Expr, ast.Pass)):
+                    nxt.append((fc, ev))
+                else:
+                    nxt.append((fc + (("stmt:" + ast.dump(st), True),), ev))
+            live = nxt
+        return live
+
+    run_block(loop.body, (), {})
+    return frozenset(out)
+
+
 def check(run: Run) -> None:
     res = Resolver(run.project)
     run.rule("R19.1", "validation dominates I/O: every filesystem access on a user-supplied path (or an alias of it) executes only after the path validator accepted that path", 20)
@@ -343,18 +437,18 @@ def _r19_2(run: Run, res: Resolver) -> None:
                 run.instance("R19.2", f"{mod.relpath}:{n.lineno}", f"{qual}: exception handler ends in a failure return", ok=ok)
                 if not ok:
                     run.violation("R19.2", mod, qual, "except handler in path validator", "an exception during path inspection does not lead to rejection", line=n.lineno)
-    # sibling agreement of the symlink walk (tests and exemption constants)
+    # sibling agreement of the symlink walk: same iterated components and the same rejecting condition, compared in a normal form
+    # (locals and one-expression helpers inlined, conjunctions split into atoms) so that a copy may be written differently
     dumps = []
     for fi, f in all_feats:
         if f["walk"] is None:
             continue
         w = f["walk"]
-        tests = [ast.dump(t.test) for t in ast.walk(w) if isinstance(t, ast.If)]
-        dumps.append((fi, (ast.dump(w.iter), tuple(tests))))
+        dumps.append((fi, (ast.dump(w.iter), _reject_normal_form(fi, w))))
     base = dumps[0][1] if dumps else None
     for fi, d in dumps[1:]:
         ok = d == base
-        run.instance("R19.2", f"{fi.module.relpath}:{fi.node.lineno}", f"{fi.qualname}: symlink walk identical to {dumps[0][0].qualname} (iterated components, symlink test, system-symlink exemption)", ok=ok)
+        run.instance("R19.2", f"{fi.module.relpath}:{fi.node.lineno}", f"{fi.qualname}: symlink walk equivalent to {dumps[0][0].qualname} (iterated components, symlink test, system-symlink exemption)", ok=ok)
         if not ok:
             run.violation("R19.2", fi.module, fi.qualname, "symlink walk (sibling agreement)", f"the symlink walk differs from the one in {dumps[0][0].fqn}: the copies must reject the same paths",
                           this=d[1], other=base[1] if base else None)
